@@ -69,7 +69,7 @@ func ShardFromArgs() *Shard {
 					// workers allocate a real codec object per case over a small live heap: collect less
 					// often, but start collecting in earnest well below the address-space limit
 					debug.SetGCPercent(800)
-					debug.SetMemoryLimit(int64(lim / 3))
+					debug.SetMemoryLimit(int64(lim / 5)) // 16 workers x 1.6 GiB stay far below the memory of the machine even when two checks overlap
 				}
 			}
 		}
